@@ -328,7 +328,7 @@ for _k, _v in _S4.items():
 
 # ---- fifth session: what was added to each check (appended to the technique text) ----
 _S5 = {
-    "C02": "the metadata reach one server late for 1-6 s (it keeps following and reporting to the leader it knows), a follower misses a beat so that followers are unevenly caught up when the leader goes, the stale-follower family; the recorded hw-fallback finding is recognised only for offsets above a fallback truncation that removed something",
+    "C02": "a follower misses a beat so that followers are unevenly caught up when the leader goes, the stale-follower family (the late-metadata fault is generated for C04 and C07 only, see the open observation in DESIGN.md 10.12); the recorded hw-fallback finding is recognised only for offsets above a fallback truncation that removed something",
     "C04": "40% of the programs are the C02 failover families (chains, ping-pong, stale follower) and a deposed-leader family in which the leader's stall begins the moment it answers a fetch with messages; late metadata, uneven followers; the ack observation is one instant (no optional scheduling point while the holders are read, torn observations are not judged); acks by a server the committed metadata name deposed are the recorded no-fencing finding",
     "C06": "a lagging node catches up while a client keeps asking it (shared engine with C12)",
     "C07": "cluster mode inherits late metadata from the C02 chains",
